@@ -625,7 +625,7 @@ func (rw *rewriter) selectStmt(sel *ast.SelectStmt, label *ast.Ident) ast.Stmt {
 	return &ast.BlockStmt{List: append(pre, sw)}
 }
 
-// yieldBlock inserts vsched.Yield() before every statement (recursively).
+// yieldBlock inserts vsched.StmtYield() before every statement (recursively).
 func (rw *rewriter) yieldBlock(b *ast.BlockStmt) {
 	if b == nil {
 		return
@@ -636,7 +636,7 @@ func (rw *rewriter) yieldBlock(b *ast.BlockStmt) {
 		switch x := st.(type) {
 		case *ast.DeclStmt, *ast.LabeledStmt:
 		default:
-			out = append(out, &ast.ExprStmt{X: call(sched("Yield"))})
+			out = append(out, &ast.ExprStmt{X: call(sched("StmtYield"))})
 			_ = x
 		}
 		rw.yieldInner(st)
